@@ -201,7 +201,7 @@ theorem short_le {S : α} {t : Tree α} (K g : α) (hS : S ≤ g) (hb : BST t) (
         have hlmax : mxOf S l ≤ g :=
           le_trans hal.mxOf_le ((trueMax_le_iff S l g).mpr ⟨hS, fun a h =>
             hall a (by simp [Tree.toList, h]) (lt_trans (hl a h) h2)⟩)
-        exact max_le (max_le hr' hlmax) hn
+        exact max_le hn (max_le hlmax hr')
       · exact hS
 
 /-- the same when only the subtrees below the root are free of overestimates: the root's own stored
@@ -223,7 +223,7 @@ theorem short_le_Q {S : α} {t : Tree α} (K g : α) (hS : S ≤ g) (hb : BST t)
         have hlmax : mxOf S l ≤ g :=
           le_trans hal.mxOf_le ((trueMax_le_iff S l g).mpr ⟨hS, fun a h =>
             hall a (by simp [Tree.toList, h]) (lt_trans (hl a h) h2)⟩)
-        exact max_le (max_le hr' hlmax) hn
+        exact max_le hn (max_le hlmax hr')
       · exact hS
 
 end XrsVerif.Viewshed
